@@ -116,10 +116,7 @@ func VerifC24() {
 		verifFail("undeclared-key-read-from-parent")
 	}
 	for k := 0; k < nKeys; k++ {
-		if p.reqs[k] > 1 {
-			verifFail("key-read-from-parent-more-than-once")
-		}
-		if p.reqs[k] == 1 {
+		if p.reqs[k] >= 1 {
 			anyone := false
 			for i := 0; i < nTxs; i++ {
 				if declared[i][k] {
